@@ -51,6 +51,7 @@ var sdScenarios = []sdScenario{
 	{Name: "pconsumer-fetch-dies", Component: "pconsumer", Variant: "fetch-dies", KMax: 100},
 	{Name: "pconsumer-out-of-range", Component: "pconsumer", Variant: "oor", Faults: []int{ffOk, ffOutOfRange}, KMax: 60},
 	{Name: "consumer-3-partitions", Component: "consumer", Variant: "three", Faults: []int{ffOk, ffOk, ffRedispatch}, KMax: 160},
+	{Name: "consumer-redispatch-fails", Component: "consumer", Variant: "no-leader", Faults: []int{ffOk, ffNoLeader}, KMax: 200},
 	{Name: "group-in-session", Component: "group", Variant: "session", KMax: 140},
 	{Name: "group-mid-join", Component: "group", Variant: "slow-join", KMax: 40},
 	{Name: "group-mid-sync", Component: "group", Variant: "slow-sync", KMax: 40},
@@ -59,6 +60,7 @@ var sdScenarios = []sdScenario{
 	{Name: "group-two-members", Component: "group", Variant: "two", KMax: 160},
 	{Name: "group-idle-member", Component: "group", Variant: "idle-member", KMax: 120},
 	{Name: "group-offset-fetch-fails", Component: "group", Variant: "offset-fetch-fails", KMax: 80},
+	{Name: "group-coordinator-lost", Component: "group", Variant: "coordinator-lost", KMax: 60},
 	{Name: "om-mid-commit", Component: "om", Variant: "slow-commit", KMax: 80},
 	{Name: "om-errors", Component: "om", Variant: "errors", KMax: 80},
 	{Name: "om-manual-commit", Component: "om", Variant: "manual-commit", KMax: 80},
@@ -553,6 +555,20 @@ func sdConsumer(r *sdRun, rng *rand.Rand) {
 	if r.sc.Variant == "idle" {
 		nrec = 0
 	}
+	if r.sc.Variant == "no-leader" {
+		nrec = 600 // the other partitions are still reading when the leaderless one gives up and retries
+	}
+	var metaN, restoreAfter int32
+	if r.sc.Variant == "no-leader" {
+		r.sim.OnMetadata = func(ctx *sarama.VSimReqCtx) sarama.VSimConnAction {
+			n := atomic.AddInt32(&metaN, 1)
+			if ra := atomic.LoadInt32(&restoreAfter); ra != 0 && n > ra {
+				r.sim.SetLeader("t", 0, 1)
+				atomic.StoreInt32(&restoreAfter, 0)
+			}
+			return sarama.VSimConnAction{}
+		}
+	}
 	for p := 0; p < parts; p++ {
 		r.sim.Append("t", int32(p), genPlainLog(rng, nrec, p*100))
 	}
@@ -580,6 +596,11 @@ func sdConsumer(r *sdRun, rng *rand.Rand) {
 				act.Kind = sarama.VFDrop
 			case ffOutOfRange:
 				act.Kind, act.Code = sarama.VFErr, sarama.ErrOffsetOutOfRange
+			case ffNoLeader:
+				// partition 0 is refused and stays without leader for the next 9 metadata answers: its re-dispatch fails at least once
+				atomic.StoreInt32(&restoreAfter, atomic.LoadInt32(&metaN)+9)
+				r.sim.SetLeader("t", 0, -1)
+				act.Kind, act.Code, act.PartIdx = sarama.VFErr, sarama.ErrNotLeaderForPartition, 0
 			}
 		}
 		return act
@@ -724,6 +745,15 @@ func sdGroup(r *sdRun, rng *rand.Rand) {
 			if ctx.Kind == "find-coordinator" {
 				return sarama.VSimGroupAction{Kind: sarama.VGError, Code: sarama.ErrConsumerCoordinatorNotAvailable}
 			}
+		case "coordinator-lost":
+			// the coordinator found first denies being it, and after that nobody can say who is:
+			// the member goes round the "refresh the coordinator, try again" loop until it is closed
+			if ctx.Kind == "join" {
+				return sarama.VSimGroupAction{Kind: sarama.VGError, Code: sarama.ErrNotCoordinatorForConsumer}
+			}
+			if ctx.Kind == "find-coordinator" && atomic.AddInt32(&nSync, 1) > 1 {
+				return sarama.VSimGroupAction{Kind: sarama.VGDropBefore}
+			}
 		case "offset-fetch-fails":
 			// the first two sessions die while they are being set up: the initial
 			// offset of a claim cannot be fetched (not retriable)
@@ -750,7 +780,7 @@ func sdGroup(r *sdRun, rng *rand.Rand) {
 		conf.Consumer.Offsets.Initial = sarama.OffsetOldest
 		conf.Consumer.MaxWaitTime = 5 * time.Millisecond
 		conf.Consumer.Retry.Backoff = time.Millisecond
-		if r.sc.Variant == "unreachable" {
+		if r.sc.Variant == "unreachable" || r.sc.Variant == "coordinator-lost" {
 			conf.Metadata.Retry.Max = 1
 			conf.Metadata.Retry.Backoff = 5 * time.Millisecond
 		}
